@@ -1378,7 +1378,9 @@ fn hash_culprit(cx: &Ctx, e: &Entry, b: &[u8], trusted: bool) -> &'static str {
     for (lo, hi) in w.pos_spans.clone() {
         let r = catch(AssertUnwindSafe(|| ProofOfSpace::from_bytes_unchecked(&b[lo..hi]).map(|p| p.hash())));
         if r.is_err() {
-            return "ProofOfSpace";
+            // the recorded finding is exactly: a version-2 proof whose proof bytes have no quality string
+            let v2_no_qs = catch(AssertUnwindSafe(|| ProofOfSpace::from_bytes_unchecked(&b[lo..hi]).map(|p| p.version == 1 && p.quality_string().is_none()).unwrap_or(false)));
+            return if matches!(v2_no_qs, Ok(true)) { "ProofOfSpace(v2,no-quality-string)" } else { "ProofOfSpace" };
         }
     }
     ""
